@@ -83,3 +83,11 @@ claim("C06",
       "interleaved, twice, and enforces abstract-state determinism: equal abstract state => attitudes and carried state (P, b, "
       "alpha) equal within 1e-12, repeats bit-identical.",
       "TLA+ FilterLifecycle + TLC (exhaustive interleavings, simulate) + abstract-state determinism replay", "DESIGN.md section 5, C06")
+claim("C13",
+      "DropoutMonitor.tla enumerates the fault patterns (<= 2 dropout runs of 1..3 slots; kinds acc0, mag0, gyr0, accmag0, all0; 12 "
+      "slots = 8 325 patterns) and is the safety automaton of the property (per-slot outcome in the set FilterCatalogue allows for "
+      "what the configuration can see, never Poisoned; close again Recover slots after the last visible fault; a rejected run "
+      "stops at a visible fault); TLC explores it with every outcome choice; the harness stretches each slot to 25 samples of a "
+      "motionless sensor, runs 15 recursive filter/architecture configurations on the faulted history and on the same history "
+      "without dropout, abstracts each slot to (outcome, close) and TLC validates the traces (TraceDropout).",
+      "TLA+ DropoutMonitor + TLC fault enumeration + trace validation of real runs", "DESIGN.md section 5, C13")
